@@ -125,6 +125,10 @@ class TransactionBase[T: TransactionBase](Owned, Protocol):
         """
         self.simultaneous(*others)
         others[0]._independent(*others[1:])
+        # the alternatives are mutually exclusive also when several callers run this body in one cycle
+        for i, other in enumerate(others):
+            for later in others[i + 1 :]:
+                other.add_conflict(later)
 
     def _independent(self, *others: T) -> None:
         """Adds independence relations.
